@@ -736,6 +736,15 @@ def load(I, arr, idx, node, env):
         meta.pop("spec", None)
     if not shape:
         return val if not isinstance(val, bool) else val
+    real_items = [it for it in items if it is not None]
+    if arr.ndim >= 2 and len(real_items) == arr.ndim and all(isinstance(it, SliceV) and it.step is None for it in real_items):
+        bounds = []
+        for it, dim in zip(real_items, arr.shape):
+            lo = it.lo if it.lo is not None else ZERO
+            hi = it.hi if it.hi is not None else dim
+            bounds.append((lo, hi))
+        if all(isinstance(b[0], Expr) and isinstance(b[1], Expr) for b in bounds):
+            meta["slice_of"] = (arr, bounds)
     return Arr(tuple(shape), val, arr.dtype, meta)
 
 
@@ -744,6 +753,128 @@ def _single_atom(x):
         cm = x.as_mono()
         if cm is not None and cm[0] == alg.C1 and len(cm[1]) == 1 and cm[1][0][1] == 1:
             return cm[1][0][0]
+    return None
+
+
+def _corner_block_store(I, arr, items, v, node):
+    """zeros[..., ya:yb, xa:xb] = t[..., yc:yd, xc:xd], repeated for the four corner blocks: the retained modes of the
+    truncated spectrum t copied block by block.  The blocks are collected; once they tile t they are judged like an index
+    scatter (each axis: source runs -> destination runs must be the retained-mode map)."""
+    real = [it for it in items if it is not None]
+    if arr.ndim < 2 or len(real) != arr.ndim or not isinstance(v, Arr) or v.ndim != arr.ndim:
+        return None
+    so = v.meta.get("slice_of")
+    if so is None:
+        return None
+    blocks = arr.meta.get("corner_blocks")
+    fresh_zero = isinstance(arr.val, Expr) and arr.val.is_zero() and arr.meta.get("spec") is None and not arr.meta.get("partial_store")
+    if blocks is None and not fresh_zero:
+        return None
+    if not all(isinstance(it, SliceV) and it.is_full() for it in real[:-2]):
+        return None
+    if not all(isinstance(it, SliceV) and it.step is None for it in real[-2:]):
+        return None
+    src, sb = so
+    if blocks and blocks[0]["src"] is not src:
+        return None
+    if not all(lo.is_zero() and hi.eq(d) for (lo, hi), d in zip(sb[:-2], src.shape[:-2])):
+        return None
+    dst = []
+    for it, dim in zip(real[-2:], arr.shape[-2:]):
+        lo = it.lo if it.lo is not None else ZERO
+        hi = it.hi if it.hi is not None else dim
+        if not (isinstance(lo, Expr) and isinstance(hi, Expr)):
+            return None
+        dst.append((lo, hi))
+    new = arr.copy()
+    new.meta = dict(arr.meta)
+    blocks = list(blocks or []) + [{"src": src, "dst": dst, "sb": list(sb[-2:])}]
+    new.meta["corner_blocks"] = blocks
+    new.meta["partial_store"] = True
+    new.val = Unknown("%s assembled block by block (%d blocks so far)" % (arr.name or "array", len(blocks)))
+    if len(blocks) < 4:
+        return new
+    # per axis: the distinct (source run -> destination run) pairs
+    maps = []
+    for ax in (0, 1):
+        pairs = []
+        for b in blocks:
+            p = (b["sb"][ax], b["dst"][ax])
+            if not any(p[0][0].eq(q[0][0]) and p[0][1].eq(q[0][1]) and p[1][0].eq(q[1][0]) and p[1][1].eq(q[1][1]) for q in pairs):
+                pairs.append(p)
+        maps.append(pairs)
+    if len(maps[0]) != 2 or len(maps[1]) != 2 or len(blocks) != 4:
+        return new
+    verdicts = []
+    for ax, pairs, n, N in ((0, maps[0], src.shape[-2], arr.shape[-2]), (1, maps[1], src.shape[-1], arr.shape[-1])):
+        # order by source position: the run that starts at 0 first
+        pairs = sorted(pairs, key=lambda p: 0 if p[0][0].is_zero() else 1)
+        (s0, d0), (s1, d1) = pairs
+        if not (s0[0].is_zero() and s0[1].eq(s1[0]) and s1[1].eq(n)):
+            verdicts.append((None, "the source blocks do not tile the truncated spectrum", ax))
+            continue
+        len0, len1 = (s0[1] - s0[0]).expand(), (s1[1] - s1[0]).expand()
+        if not ((d0[1] - d0[0]).expand().eq(len0) or IV.scalar_equal(I, d0[1] - d0[0], len0)[0]) or not ((d1[1] - d1[0]).expand().eq(len1) or IV.scalar_equal(I, d1[1] - d1[0], len1)[0]):
+            verdicts.append((False, "a block is copied into a window of another size", ax))
+            continue
+        iv = IV.IVec([(len0, d0[0]), (len1, d1[0])])
+        ok, why = IV.compare(I, iv, IV.trunc_map(n, N), N)
+        verdicts.append((ok, why, ax))
+    if any(ok is None for ok, _, _ in verdicts):
+        return new
+    bad = [(w, ax) for ok, w, ax in verdicts if ok is False]
+    if bad:
+        for w, ax in bad:
+            I.event("typestate", node, "the corner blocks put the retained modes of axis %d at other places than their own wavenumbers: %s" % (ax, w))
+        return new
+    two = alg.const(2)
+    Ny, Nx = arr.shape[-2], arr.shape[-1]
+    ny_, nx_ = src.shape[-2], src.shape[-1]
+    dy = I.scalar_binop(ast.FloorDiv(), (Ny - ny_).expand(), two, node)
+    dx = I.scalar_binop(ast.FloorDiv(), (Nx - nx_).expand(), two, node)
+    kw = {} if src.ndim == 2 else {"axes": Tup([alg.const(src.ndim - 2), alg.const(src.ndim - 1)])}
+    r = fftshift(I, [src], kw, node)
+    widths = [Tup([ZERO, ZERO])] * (src.ndim - 2) + [Tup([dy, dy]), Tup([dx, dx])]
+    r = np_pad(I, [r, Tup(widths)], {"mode": "constant", "constant_values": ZERO}, node)
+    if not isinstance(r, Arr):
+        return new
+    r = ifftshift(I, [r], kw, node)
+    if isinstance(r, Arr):
+        r = r.copy(name=arr.name)
+        r.shape = arr.shape
+        r.dtype = arr.dtype
+        return r
+    return new
+
+
+def _centre_window_store(I, arr, items, v, node):
+    """zeros[..., a:N-a', b:M-b'] = centred spectrum: zero padding written as a store into the middle of a zero array"""
+    real = [it for it in items if it is not None]
+    if arr.ndim < 2 or len(real) != arr.ndim or not isinstance(v, Arr) or v.ndim != arr.ndim:
+        return None
+    if not (isinstance(arr.val, Expr) and arr.val.is_zero() and arr.meta.get("spec") is None and not arr.meta.get("partial_store")):
+        return None
+    if not all(isinstance(it, SliceV) and it.is_full() for it in real[:-2]):
+        return None
+    sy, sx = real[-2], real[-1]
+    if not (isinstance(sy, SliceV) and isinstance(sx, SliceV) and sy.step is None and sx.step is None and not (sy.is_full() and sx.is_full())):
+        return None
+    vs = v.meta.get("spec")
+    if vs is None or vs.layout != "cen":
+        return None  # only the padding of a centred spectrum is recognised here
+    widths = [Tup([ZERO, ZERO])] * (arr.ndim - 2)
+    for sl, dim in ((sy, arr.shape[-2]), (sx, arr.shape[-1])):
+        lo = sl.lo if sl.lo is not None else ZERO
+        hi = sl.hi if sl.hi is not None else dim
+        if not (isinstance(lo, Expr) and isinstance(hi, Expr)):
+            return None
+        widths.append(Tup([lo, (dim - hi).expand()]))
+    r = np_pad(I, [v, Tup(widths)], {"mode": "constant", "constant_values": ZERO}, node)
+    if isinstance(r, Arr):
+        r = r.copy(name=arr.name)
+        r.shape = arr.shape
+        r.dtype = arr.dtype
+        return r
     return None
 
 
@@ -820,6 +951,12 @@ def store(I, arr, idx, v, node, env):
     sc = _index_scatter(I, arr, items, v, node)
     if sc is not None:
         return sc
+    cw = _centre_window_store(I, arr, items, v, node)
+    if cw is not None:
+        return cw
+    cb = _corner_block_store(I, arr, items, v, node)
+    if cb is not None:
+        return cb
     # x[1:] = x[:-1] on an array of inclusive prefix sums (numpy copies overlapping ranges as if through a temporary):
     # everything moves one place to the right, entry 0 stays; resetting entry 0 afterwards gives the exclusive prefix sums
     if (arr.ndim == 1 and len(items) == 1 and isinstance(items[0], SliceV) and const_int(items[0].lo) == 1 and items[0].hi is None and items[0].step is None
@@ -1834,6 +1971,12 @@ def np_unique(I, args, kwargs, node):
     U = Arr((n,), alg.fn("elem", alg.sym(tag)), x.dtype, {"sorted_unique": True, "unique_of": x, "ident": ident})
     if isinstance(x.val, Expr):
         I.facts.refine(U.val, I.facts.possible(x.val))  # the distinct values have the sign of the values
+        xa = _single_atom(x.val)
+        if xa is not None:
+            # ... and satisfy every bound the values satisfy (levels < nz, ...)
+            for ent in list(I.facts.signs):
+                if xa in ent[0].atoms() and not ent[0].eq(x.val):
+                    I.facts.refine(ent[0].subs({xa: U.val}), set(ent[1]))
     want_index = kwargs.get("return_index") is True or (len(args) > 1 and args[1] is True)
     want_inverse = kwargs.get("return_inverse") is True or (len(args) > 2 and args[2] is True)
     want_counts = kwargs.get("return_counts") is True or (len(args) > 3 and args[3] is True)
@@ -2070,8 +2213,54 @@ def np_ix_(I, args, kwargs, node):
     return Tup(out)
 
 
+def _roll_kind(I, shift, dim):
+    """is a roll by `shift` along an axis of length dim numpy's fftshift (dim // 2) or ifftshift (-(dim // 2))?
+    -> set of {"F", "I"} that hold for every parity the facts allow, or None when the shift is something else / undecided"""
+    h = alg.fn("floordiv", dim, alg.const(2), integer=True)
+    out = set()
+    for kind, ref in (("F", h), ("I", dim - h), ("I", -h), ("F", h - dim)):
+        ok, _ = IV.scalar_equal(I, shift, ref)
+        if ok is None:
+            return None
+        if ok:
+            out.add(kind)
+    return out
+
+
+def _roll_spectrum(I, x, shifts, axes, node):
+    gax = grid_axes(x)
+    if sorted(axes) != list(gax):
+        return None
+    kinds = []
+    for sh, ax in zip(shifts, axes):
+        k = _roll_kind(I, sh, x.shape[ax])
+        if k is None:
+            return Arr(x.shape, Unknown("np.roll of a spectrum by a shift that could not be compared with half its length"), x.dtype, {})
+        kinds.append(k)
+    common = set.intersection(*kinds) if kinds else set()
+    kw = {} if x.ndim == 2 else {"axes": Tup([alg.const(a) for a in sorted(axes)])}
+    spec = x.meta.get("spec") or Spec("nat", None)
+    if not common:
+        I.event("typestate", node, "np.roll by %s along the spectral axes is neither fftshift (n // 2) nor ifftshift (-(n // 2)) for every admissible size" % (", ".join(repr(s) for s in shifts)))
+        return Arr(x.shape, Unknown("spectrum rolled by something else than half its length"), x.dtype, {})
+    if common == {"F", "I"}:
+        # even sizes: the two coincide; it is whichever the current layout needs
+        return fftshift(I, [x], kw, node) if spec.layout == "nat" else ifftshift(I, [x], kw, node)
+    return fftshift(I, [x], kw, node) if "F" in common else ifftshift(I, [x], kw, node)
+
+
 def np_roll(I, args, kwargs, node):
     x, shift = args[0], _kw(args, kwargs, 1, "shift")
+    axis = _kw(args, kwargs, 2, "axis")
+    if isinstance(x, Arr) and x.ndim >= 2 and axis is not None:
+        shifts = list(shift.items) if isinstance(shift, Tup) else [shift]
+        axes = [const_int(a) for a in (axis.items if isinstance(axis, Tup) else [axis])]
+        if all(isinstance(s_, Expr) for s_ in shifts) and all(a is not None for a in axes) and len(shifts) == len(axes):
+            axes = [a if a >= 0 else x.ndim + a for a in axes]
+            r = _roll_spectrum(I, x, shifts, axes, node)
+            if r is not None:
+                return r
+        return Unknown("np.roll along an axis")
     if isinstance(x, Arr) and x.ndim == 1 and isinstance(x.val, Expr) and isinstance(shift, Expr) and kwargs.get("axis") is None:
         return Arr(x.shape, alg.fn("roll", x.val, shift), x.dtype, {"roll_of": (x, shift)})
     return Unknown("np.roll")
@@ -2094,6 +2283,10 @@ def np_sum(I, args, kwargs, node):
 
 def np_cumsum(I, args, kwargs, node):
     x = args[0]
+    if isinstance(x, Arr) and x.ndim == 1 and x.meta.get("concat_parts") and not isinstance(x.val, Expr):
+        r = np_accumulate("add")(I, [x], {}, node)
+        if isinstance(r, Arr):
+            return r
     if isinstance(x, Arr) and isinstance(x.val, Expr):
         m = {"cumsum_of": x, "param_derived": x.meta.get("param_derived")}
         g = x.meta.get("gen")
